@@ -41,6 +41,7 @@ type Case struct {
 	Pos     int             `json:"pos"`
 	Text    string          `json:"text"`
 	Toks    []string        `json:"toks"`
+	Alias   string          `json:"alias"`
 }
 
 // trees decodes a field that is either one tree or a sequence of trees (file body).
@@ -141,6 +142,10 @@ func fixupDicts(b *Builder, obs []dictObs) [][]int {
 
 // renderBody builds a fresh File from the trees and renders it. Dict first-pass orders are recorded through the hook.
 func renderBody(body []*Node, noformat bool, b *Builder) (renderResult, []dictObs) {
+	return renderBodyWith(body, noformat, b, nil)
+}
+
+func renderBodyWith(body []*Node, noformat bool, b *Builder, setup func(*jen.File)) (renderResult, []dictObs) {
 	if b == nil {
 		b = NewBuilder()
 	}
@@ -148,6 +153,9 @@ func renderBody(body []*Node, noformat bool, b *Builder) (renderResult, []dictOb
 	res := safely(func() ([]byte, error) {
 		f := jen.NewFile("main")
 		f.NoFormat = noformat
+		if setup != nil {
+			setup(f)
+		}
 		for _, t := range body {
 			f.Add(b.Code(t))
 		}
@@ -189,10 +197,21 @@ func runC13(tw *TraceWriter, id int, c *Case) {
 	fb, _ := renderBody(base, false, nil)
 	rv, _ := renderBody(variant, true, nil)
 	fv, _ := renderBody(variant, false, nil)
+	// the same File rendered twice: the list must not change what is rendered next
+	again := "same"
+	func() {
+		f := jen.NewFile("main")
+		f.NoFormat = true
+		f.Add(NewBuilder().Code(variant[0]))
+		r1, r2 := renderFile(f), renderFile(f)
+		if r1.status != r2.status || !bytes.Equal(r1.out, r2.out) {
+			again = "differs"
+		}
+	}()
 	vid, vnsep, framed := listProjection(rv.out, c)
 	tw.Emit(Rec{"ev": "c13", "id": id, "name": c.Name, "kinds": c.Kinds, "base": base[0], "variant": variant[0],
 		"idents": c.Idents, "nsep": c.Nsep, "rb": resRec(rb, fb), "rv": resRec(rv, fv),
-		"vidents": vid, "vnsep": vnsep, "framed": framed, "msg": rv.msg})
+		"vidents": vid, "vnsep": vnsep, "framed": framed, "msg": rv.msg, "again": again})
 	if len(c.Kinds) >= 2 {
 		tw.Distinct("nontrivial_cases", c.Name+fmt.Sprint(c.Kinds))
 	}
@@ -202,8 +221,8 @@ func runC13(tw *TraceWriter, id int, c *Case) {
 }
 
 // dict key / value expectations of the MC_Render dict universe, with package qualifiers normalised to paths
-var keyText = map[string]string{"a": "a", "ab": "ab", "1": "1", "f1": "f()", "f2": "f()", "qx": "x/d.K", "qy": "y/d.K"}
-var keyNo = map[string]string{"a": "10", "ab": "11", "1": "12", "f1": "13", "f2": "14", "qx": "15", "qy": "16", "null": "17"}
+var keyText = map[string]string{"a": "a", "ab": "ab", "a1": "a1", "1": "1", "f1": "f()", "f2": "f()", "qx": "x/d.K", "qy": "y/d.K"}
+var keyNo = map[string]string{"a": "10", "ab": "11", "a1": "18", "1": "12", "f1": "13", "f2": "14", "qx": "15", "qy": "16", "null": "17"}
 
 func expectedPairs(c *Case) []string {
 	out := []string{}
@@ -283,8 +302,13 @@ func dictProjection(src []byte) (pairs []string, keys []string, multiline bool, 
 func runC16(tw *TraceWriter, id int, c *Case, repeats int) {
 	body := []*Node{c.Tree}
 	b := NewBuilder()
-	rv, obs := renderBody(body, true, b)
-	fv, _ := renderBody(body, false, nil)
+	setup := func(f *jen.File) {
+		if c.Alias != "" {
+			f.ImportAlias("x/d", c.Alias)
+		}
+	}
+	rv, obs := renderBodyWith(body, true, b, setup)
+	fv, _ := renderBodyWith(body, false, nil, setup)
 	order1 := []int{}
 	if os := fixupDicts(b, obs); len(os) == 1 {
 		order1 = os[0]
@@ -297,7 +321,7 @@ func runC16(tw *TraceWriter, id int, c *Case, repeats int) {
 	orders := map[string]bool{fmt.Sprint(order1): true}
 	for i := 0; i < repeats; i++ {
 		bb := NewBuilder()
-		r2, o2 := renderBody(body, true, bb)
+		r2, o2 := renderBodyWith(body, true, bb, setup)
 		hashes[Hash(r2.out)] = true
 		for _, o := range o2 {
 			ord := []int{}
@@ -309,7 +333,7 @@ func runC16(tw *TraceWriter, id int, c *Case, repeats int) {
 		}
 	}
 	tw.Stats["dict_first_pass_orders_seen"] += len(orders)
-	tw.Emit(Rec{"ev": "c16", "id": id, "pairs": c.Pairs, "live": c.Live, "known": c.Known,
+	tw.Emit(Rec{"ev": "c16", "id": id, "alias": c.Alias, "pairs": c.Pairs, "live": c.Live, "known": c.Known,
 		"otree": otree, "order1": order1,
 		"rv": resRec(rv, fv), "expected": expectedPairs(c), "got": pairs, "parsed": parsed,
 		"sorted": sorted, "multiline": multiline, "nhash": len(hashes), "norders": len(orders)})
